@@ -16,14 +16,16 @@
 (***************************************************************************)
 EXTENDS Naturals, Sequences, FiniteSets, TLC, Json
 
-CONSTANTS MaxRows, Emit
+CONSTANTS MaxRows, Emit,
+          MaxCols       \* only the layouts of at most MaxCols columns (bounds the exhaustive runs; 5 = all)
 
 Blank == ""
 Vals == {Blank, "a", "b", "0"}          \* "0" stands for a cell holding the NUMBER 0 (not blank)
-Layouts == { <<"Id", "Name", "X1", "X2">>, <<"Name", "Id", "X1">>, <<"", "Id", "Name", "Opt">>,
+AllLayouts == { <<"Id", "Name", "X1", "X2">>, <<"Name", "Id", "X1">>, <<"", "Id", "Name", "Opt">>,
              <<"Id", "X1", "Name", "X2">>, <<"X1", "X2", "Id", "Name">>, <<"Id", "Name">>,
              <<"Id", "", "X1", "Name">>, <<"Opt", "Id", "X1", "X2", "Name">>, <<"Id", "Name", "X1", "", "X2">>,
              <<"X1", "Id", "X2", "Name">> }
+Layouts == { t \in AllLayouts : Len(t) <= MaxCols }
 Known == {"Id", "Name", "Opt"}
 
 VARIABLES titles, lead, rows, tail, stopOn, ladder, phase,
